@@ -600,6 +600,11 @@ func (e *nilMapEngine) fieldByFlow(fa *ssa.FieldAddr, load *ssa.UnOp, depth int)
 	}
 	// base handed in by the callers: every caller must pass an object whose field is allocated
 	if prm, isParam := fa.X.(*ssa.Parameter); isParam {
+		// a type-level invariant (every construction of the struct allocates the field) settles it
+		// whoever the callers are
+		if okT, whyT := e.fieldAllocated(fa, depth); okT {
+			return true, whyT, true
+		}
 		okAll, why := e.paramObjFieldAllocated(prm, fa.Field, depth)
 		return okAll, why, true
 	}
